@@ -594,3 +594,21 @@ Theorem C16_table_probes :
       /\ length gen_invalid = 4%nat).
 Proof. exact (conj suffix_probe (conj http_arm_probe (conj has_body_probe invalid_chars_probe))). Qed.
 Print Assumptions C16_table_probes.
+
+(* ---- the first artefact: the source image (PrintFile -> ReadFSImage), through the file model of C05 ----------
+   for every well-formed compiled descriptor the printed tokens are read back without error, and the descriptor
+   read back has the same package and, element for element (services with their methods, input / output types and
+   options; messages with fields, json names and options; enums), equivalent contents — so addStructure reads the
+   same services from the image as from the compiler's descriptors. wf_dfile is evaluated on every compiled file
+   of a C05 run (file stream). The characters between the tokens and map-entry field options are C05's partial /
+   known parts. *)
+Theorem C16_source_image_stage : forall imp D, ProtoPrintFileFullProofs.wf_dfile imp D ->
+  exists D', ProtoParseFile.parse_file_tokens imp
+               (ProtoPrintFile.print_file_tokens (ProtoPrintFile.to_symtab (ProtoPrintFile.dfile_symtab imp D)) D) = Some D'
+    /\ ProtoPrintFile.d_pkg D' = ProtoPrintFile.d_pkg D
+    /\ (forall e, In e (ProtoPrintFile.d_body D) ->
+          exists e', In e' (ProtoPrintFile.d_body D') /\ ProtoPrintFileFullProofs.elem_equiv e e')
+    /\ (forall e', In e' (ProtoPrintFile.d_body D') ->
+          exists e, In e (ProtoPrintFile.d_body D) /\ ProtoPrintFileFullProofs.elem_equiv e e').
+Proof. exact image_stage. Qed.
+Print Assumptions C16_source_image_stage.
